@@ -28,3 +28,26 @@ func VerifScanTokens(r io.Reader) (tokens []string, err error) {
 	}
 	return tokens, sc.Err()
 }
+
+// VerifFormatDurationSTL exposes formatDurationSTL
+func VerifFormatDurationSTL(d time.Duration, framerate int) string {
+	return formatDurationSTL(d, framerate)
+}
+
+// VerifParseDurationSTL exposes parseDurationSTL
+func VerifParseDurationSTL(s string, framerate int) (time.Duration, error) {
+	return parseDurationSTL(s, framerate)
+}
+
+// VerifFormatDurationSTLBytes exposes formatDurationSTLBytes
+func VerifFormatDurationSTLBytes(d time.Duration, framerate int) []byte {
+	return formatDurationSTLBytes(d, framerate)
+}
+
+// VerifParseDurationSTLBytes exposes parseDurationSTLBytes
+func VerifParseDurationSTLBytes(b []byte, framerate int) time.Duration {
+	return parseDurationSTLBytes(b, framerate)
+}
+
+// VerifParseDurationSRT exposes parseDurationSRT
+func VerifParseDurationSRT(s string) (time.Duration, error) { return parseDurationSRT(s) }
